@@ -61,11 +61,53 @@ def run_check(prop, tier):
                 seen.add(ks)
                 path = vlib.save_replay(prop, "row-%d" % mon["id"], dict(property=prop, key=mon["key"], textrow=byid[mon["id"]]))
                 violations.append((ks, path))
-        cov = dict(states=max(g["states"], 1), transitions=max(g["states"], 1), traces_validated_against_impl=len(rows),
+        # ---- the stateful part: sequences of announce / unannounce / SetAutoAccept with provider failures (MdnsAnnounce.tla)
+        maxops = 5 if tier == "quick" else 6
+        with open(os.path.join(sd, "MdnsAnnounce.cfg"), "w") as f:
+            f.write('SPECIFICATION Spec\nCONSTANTS MaxOps = %d\n EmitMode = "edge"\nINVARIANT P_C16_current\nINVARIANT P_belief\n'
+                    'ACTION_CONSTRAINT Emit\nCHECK_DEADLOCK FALSE\n' % maxops)
+        a = vlib.tlc(sd, "MdnsAnnounce", workers=1, timeout=1800)
+        if a["error"] or a["violated"]:
+            raise vlib.Infra("MdnsAnnounce: %s\n%s" % (a["violated"] or a["error"], a["tail"]))
+        seqs = [h for h in vlib.tlc_lines(a["out_path"], "TEST") if len(h) == maxops]
+        os.remove(a["out_path"])
+        sp = os.path.join(sc, "seqs.ndjson")
+        with open(sp, "w") as f:
+            for i, h in enumerate(seqs):
+                f.write(json.dumps(dict(id=i, ops=h)) + "\n")
+        aobs = os.path.join(sc, "aobs.ndjson")
+        rc, out = vlib.run([binp, "-seqs", sp, "-obs", aobs], timeout=1800)
+        if rc != 0:
+            crash = vlib.library_crash(out)
+            if crash:
+                path = vlib.save_replay(prop, "process-crash", dict(property=prop, key=["process-crash", crash], output_tail=out[-4000:]))
+                vlib.finish(prop, [("process-crash/" + crash, path)], {}, [])
+            raise vlib.Infra("harness mdnstext (sequences) failed:\n" + out[-3000:])
+        print("stage M/G: MdnsAnnounce %d states, %d operation sequences of length %d; %s" % (a["distinct"], len(seqs), maxops, out.strip()))
+        with open(os.path.join(sd, "MonAnnRun.tla"), "w") as f:
+            f.write("---- MODULE MonAnnRun ----\nEXTENDS MonAnn\n====\n")
+        with open(os.path.join(sd, "MonAnnRun.cfg"), "w") as f:
+            f.write('SPECIFICATION Spec\nCONSTANT ObsFile = "%s"\nPOSTCONDITION Done\nCHECK_DEADLOCK FALSE\n' % aobs)
+        r2 = vlib.tlc(sd, "MonAnnRun", workers=1, timeout=1800)
+        if r2["error"]:
+            raise vlib.Infra("monitor pass (sequences) failed: %s\n%s" % (r2["error"], r2["tail"]))
+        for mon in vlib.tlc_lines(r2["out_path"], "MON"):
+            nmon += 1
+            ks = vlib.key_str(mon["key"][1:])
+            kf = vlib.classify(prop, mon["key"][1:], [], known)
+            if kf:
+                known_hits[kf["key"]] = kf["text"]
+            elif ks not in seen and len(violations) < 20:
+                seen.add(ks)
+                path = vlib.save_replay(prop, "seq-%d" % mon["id"], dict(property=prop, key=mon["key"], step=mon["i"], annseq=seqs[mon["id"]]))
+                violations.append((ks, path))
+        cov = dict(states=max(g["states"], 1) + a["states"], transitions=max(g["states"], 1) + a["states"], traces_validated_against_impl=len(rows) + len(seqs),
+                   operation_sequences=len(seqs),
                    samples=[rows[len(rows) // 2]], rows=len(rows), monitor_violation_lines=nmon, known_findings_hit=sorted(known_hits),
                    exhaustive=True,
                    rule="the whole MdnsText table: 5 fields x 9 ASCII prefix lengths (0, 3, 27..33) x all tails of up to two atoms from "
-                        "{1,2,3,4-byte runes, '=', ';', ':'}, plus category lists and the auto-accept flag")
+                        "{1,2,3,4-byte runes, '=', ';', ':'}, plus category lists and the auto-accept flag; and every sequence of "
+                        "announce / unannounce / SetAutoAccept calls of the stated length with provider announcements that may fail")
         vlib.write_evidence(prop, tier, "model_checking", cov, time.time() - t0, len(violations),
                             assumptions=["abstract atoms are concretised as x, e-acute, euro sign, an emoji, '=', ';', ':'",
                                          "the QR text is parsed by the harness with the SHIP;KEY:VALUE;..ENDSHIP; grammar"])
